@@ -33,8 +33,13 @@ def configs(ctx):
     quick = [(('aes_gcm', None), None), (('chacha20_poly1305', None), {'name': 'sha2', 'bits': 256}),
              (('aes_gcm', 128), {'name': 'sha3', 'bits': 512}), (('aes_gcm', 192), {'name': 'blake2b', 'length': 32}),
              (('chacha20_poly1305', None), {'name': 'blake2b', 'length': 64}), (('aes_gcm', 256), {'name': 'sha2', 'bits': 512}),
-             (('aes_gcm', 128), {'name': 'sha3', 'bits': 224}), (('aes_gcm', 192), {'name': 'sha2', 'bits': 384})]
+             (('aes_gcm', 128), {'name': 'sha3', 'bits': 224}), (('aes_gcm', 192), {'name': 'sha2', 'bits': 384}),
+             # cipher parameter sweep: nonce widths the adapter accepts besides the default 96 bits
+             (('aes_gcm', 256, 128), None), (('aes_gcm', 128, 256), {'name': 'sha2', 'bits': 256}), (('aes_gcm', 192, 512), {'name': 'blake2b', 'length': 48}),
+             (('aes_gcm', 256, 64), {'name': 'sha3', 'bits': 256})]
     if ctx.tier == 'thorough' or ctx.deep:
+        for nb in (64, 104, 128, 192, 384, 1024):
+            quick.append((('aes_gcm', 256, nb), {'name': 'blake2b', 'length': 32}))
         for c in (('aes_gcm', 128), ('aes_gcm', 192), ('aes_gcm', 256), ('chacha20_poly1305', None)):
             for h in ({'name': 'blake2b', 'length': 64}, {'name': 'blake2b', 'length': 20}, {'name': 'sha2', 'bits': 224}, {'name': 'sha2', 'bits': 384},
                       {'name': 'sha2', 'bits': 512}, {'name': 'sha3', 'bits': 224}, {'name': 'sha3', 'bits': 256}, {'name': 'sha3', 'bits': 384}):
@@ -527,6 +532,59 @@ def haystacks(h):
     return out
 
 
+def plaintexts_of(h):
+    """plaintexts that get encrypted or named: whole files, chunks, paths, notes, and - as far as the independent reader
+    can open them - the snapshot tables / private data / key private sections"""
+    out = []
+    for files in h['files']:
+        for p, data in files.items():
+            out += [('file', data), ('path', p.encode())]
+    for n in h['notes']:
+        if n:
+            out.append(('note', n.encode()))
+    try:
+        rr = refreader.RefReader(h['config'])
+        keys = {u: rr.open_key(h['keys'][u], h['passwords'][u]) for u in h['keys']}
+        objects = {e[1]: e[2] for e in h['log'] if e[0] == 'upload'}
+        for (v, u) in h['snapshots']:
+            k = keys.get(u)
+            try:
+                s_ = rr.read_snapshot(k, objects[v.location])
+                out += [('snapshot table', s_.get('table_plain') or b''), ('snapshot data', s_.get('data_plain') or b'')]
+            except Exception:
+                pass
+            for d in v.chunks:
+                for name, data in objects.items():
+                    if name.startswith('data/') and k is not None:
+                        pt = rr.read_chunk(k, data, bytes(d))
+                        if pt is not None:
+                            out.append(('chunk', pt))
+                            break
+        for u, k in keys.items():
+            pt = rr.aead_open(k.private_ct, k.userkey)
+            if pt:
+                out.append(('key private section', pt))
+    except Exception:
+        pass
+    seen, res = set(), []
+    for k, b in out:
+        if b and (k, b) not in seen:
+            seen.add((k, b))
+            res.append((k, b))
+    return res
+
+
+def unkeyed_digests(data):
+    """(algorithm, digest) for every hash the adapters offer, without any key: blake2b in every length of at least 12 bytes,
+    sha2 and sha3 in all four widths"""
+    import hashlib
+    out = [(f'blake2b-{n}', hashlib.blake2b(data, digest_size=n).digest()) for n in range(12, 65)]
+    for bits in (224, 256, 384, 512):
+        out.append((f'sha2-{bits}', getattr(hashlib, f'sha{bits}')(data).digest()))
+        out.append((f'sha3-{bits}', getattr(hashlib, f'sha3_{bits}')(data).digest()))
+    return out
+
+
 def taint_scan(h):
     hits, n = [], 0
     hay = haystacks(h)
@@ -536,14 +594,25 @@ def taint_scan(h):
                 n += 1
                 if needle in b:
                     hits.append({'secret': kind, 'form': form, 'where': where})
+    # anything stored that equals an UNKEYED hash of a plaintext links equal contents across keys and repositories and
+    # confirms guesses (the repository's own content digests are covered above as 'chunk digest' / 'file digest')
+    known = {s for _, s in secrets_of(h)}
+    for what, pt in plaintexts_of(h):
+        for alg, dg in unkeyed_digests(pt):
+            if dg in known:
+                continue
+            for where, b in hay:
+                n += 1
+                if dg in b or dg.hex().encode() in b:
+                    hits.append({'secret': f'unkeyed {alg} digest of a {what}', 'form': 'raw' if dg in b else 'hex', 'where': where})
     return hits, n
 
 
 # --------------------------------------------------------------------------- one case
 def check_case(ctx, rep: Report, h, encrypted=True):
     cid = h['cid']
-    label = f'{h["cipher"][0] if h["cipher"] else "none"}{"-" + str(h["cipher"][1]) if h["cipher"] and h["cipher"][1] else ""}/' \
-            f'{(h["hashing"] or {"name": "blake2b"})["name"]}'
+    label = f'{h["cipher"][0] if h["cipher"] else "none"}{"-" + str(h["cipher"][1]) if h["cipher"] and h["cipher"][1] else ""}' \
+            f'{"/nonce " + str(h["cipher"][2]) if h["cipher"] and len(h["cipher"]) > 2 else ""}/{(h["hashing"] or {"name": "blake2b"})["name"]}'
     env = h.get('env') or environment(cid)
     label += f' [cache: {env["cache"]}{", debug logging" if env["debug"] else ""}]'
     replay = {'cid': cid, 'cipher': h['cipher'], 'hashing': h['hashing'], 'seed': h['seed'], 'environment': env}
@@ -708,6 +777,93 @@ def vanishing_chunk_probe(ctx, rep):
         shutil.rmtree(root, ignore_errors=True)
 
 
+def live_sessions_case(ctx, rep, cid, hashing, chunking):
+    """Several repositories of one user served by ONE process: an unencrypted repository and two encrypted ones with
+    different keys, each through a long-lived Repository object, commands interleaved over the same file contents (the
+    chunking is chosen so that equal contents give equal chunks in all three).  Everything written to the two encrypted
+    backends is taint-scanned and lifted under that repository's own key."""
+    import asyncio, contextlib, io, random
+    from replicat.repository import Repository
+    seed = ctx.rng.randrange(1 << 30)
+    rng = random.Random(seed)
+    root = Path(ctx.scratch) / f'c05-live-{cid}'
+    tree = root / f'confidential-{rng.randbytes(4).hex()}'
+    files = repolab.make_tree(rng, tree, 3, maxlen=900)
+    files = {str(Path(p).rename(Path(p).with_name(f'secretname{i}-{rng.randbytes(4).hex()}.dat'))): d for i, (p, d) in enumerate(sorted(files.items()))}
+    specs = {'plain': None, 'enc1': ('aes_gcm', None), 'enc2': ('chacha20_poly1305', None)}
+    order = [list(specs), ['enc2', 'plain', 'enc1']][cid % 2]      # who snapshots first alternates
+    pw = {n: f'pass-{n}-{rng.randbytes(5).hex()}'.encode() for n in specs}
+    notes = {n: f'note-{n}-{rng.randbytes(4).hex()}' for n in specs}
+    bes = {n: MemBackend() for n in specs}
+    got = {n: {'snapshots': [], 'key': None} for n in specs}
+    replay = {'live': {'cid': cid, 'hashing': hashing, 'chunking': chunking}}
+    label = f'live sessions [{"/".join(order)}; {(hashing or {"name": "blake2b"})["name"]}; chunking {chunking}]'
+
+    async def go():
+        repos = {}
+        for n in specs:
+            r = repos[n] = Repository(bes[n], concurrent=2, quiet=True, cache_directory=None)
+            res = await r.init(password=pw[n] if specs[n] else None, settings=repolab.settings_for(specs[n], hashing=hashing, chunking=chunking))
+            got[n]['key'] = repolab.serialize_key(res.key) if res.key is not None else None
+        for rnd in range(2):
+            for n in order:
+                v = await repos[n].snapshot(paths=[tree], note=notes[n] if rnd == 0 else None)
+                got[n]['snapshots'].append(v)
+            victim = sorted(files)[0]
+            Path(victim).write_bytes(rng.randbytes(500))
+        for n in order:
+            await repos[n].delete_snapshots([got[n]['snapshots'][0].name], confirm=False)
+            await repos[n].clean()
+    files2 = None
+    try:
+        with contextlib.redirect_stdout(io.StringIO()), contextlib.redirect_stderr(io.StringIO()), PrimitiveLog() as plog:
+            asyncio.run(go())
+        files2 = {p: Path(p).read_bytes() for p in files}
+    except Exception as e:  # noqa: BLE001
+        rep.disagreements.append({'what': f'[{label}] the interleaved sessions could not be run on the implementation: {type(e).__name__}: {str(e)[:300]}',
+                                  'replay': replay})
+    victim = sorted(files)[0]
+    mid = dict(files)
+    shutil.rmtree(root, ignore_errors=True)
+    for n in ('enc1', 'enc2'):
+        if got[n]['key'] is None or not got[n]['snapshots']:
+            continue
+        h = {'cid': cid, 'config': bes[n].objects.get('config') or next(e[2] for e in bes[n].log if e[0] == 'upload' and e[1] == 'config'),
+             'keys': {'owner': got[n]['key']}, 'passwords': {'owner': pw[n]}, 'to_file': {'owner': False}, 'keyfiles': {}, 'outputs': [],
+             'log': list(bes[n].log), 'snapshots': [(v, 'owner') for v in got[n]['snapshots']], 'files': [files, files2 or {}], 'notes': [notes[n]]}
+        rep.case((label, n, seed), nontrivial=len(got[n]['snapshots']) >= 2)
+        rep.count('scenario:live-sessions')
+        hits, cnt = taint_scan(h)
+        rep.evaluations += cnt
+        seen = set()
+        for hit in hits:
+            if (hit['secret'], hit['where']) in seen:
+                continue
+            seen.add((hit['secret'], hit['where']))
+            rep.violations.append({'what': f'[{label}] repository {n}: {hit["secret"]} found in {hit["form"]} form in {hit["where"]}',
+                                   'signature': {'secret': hit['secret'], 'where': hit['where'], 'scenario': 'live'}, 'replay': replay})
+        try:
+            lift = Lift(h)
+            lift.lift_all()
+            for p_ in lift.problems:
+                rep.disagreements.append({'what': f'[{label}] repository {n}: {p_}', 'replay': replay})
+        except Exception as e:  # noqa: BLE001
+            rep.disagreements.append({'what': f'[{label}] repository {n}: lifting what was written failed: {type(e).__name__}: {e}', 'replay': replay})
+    if files2 is not None:
+        for cipher_, times, lens in plog.reused()[:1]:
+            rep.violations.append({'what': f'[{label}] one (key, nonce) pair was handed to {cipher_} {times} times (plaintext lengths {lens})',
+                                   'signature': {'secret': 'nonce reuse', 'where': 'primitive', 'scenario': 'live'}, 'replay': replay})
+
+
+LIVE_SETUPS = [(None, {'min_length': 128, 'max_length': 128}), ({'name': 'sha2', 'bits': 256}, {'min_length': 256, 'max_length': 256}),
+               ({'name': 'blake2b', 'length': 32}, dict(repolab.SMALL_CHUNKING))]
+
+
+def live_sessions(ctx, rep):
+    for cid, (hashing, chunking) in enumerate(LIVE_SETUPS[:ctx.scale(2, 3)]):
+        live_sessions_case(ctx, rep, cid, hashing, chunking)
+
+
 class PrimitiveLog:
     """Records every (cipher, key, nonce, length) handed to the AEAD primitives while active: the classes of
     cryptography.hazmat.primitives.ciphers.aead are replaced by recording fronts (the adapters look them up there on
@@ -834,6 +990,7 @@ def run(ctx) -> Report:
     vanishing_chunk_probe(ctx, rep)
     duplicated_state_probe(ctx, rep)
     size_threshold_probe(ctx, rep)
+    live_sessions(ctx, rep)
     return rep
 
 
@@ -849,12 +1006,21 @@ def search(ctx, broken) -> Report:
     vanishing_chunk_probe(ctx, rep)
     duplicated_state_probe(ctx, rep)
     size_threshold_probe(ctx, rep)
+    live_sessions(ctx, rep)
     return rep
 
 
 def replay(ctx, obj):
     import random
     r = obj.get('replay') or {}
+    if 'live' in r:
+        rep = Report(rule=RULE)
+        live_sessions_case(ctx, rep, r['live']['cid'], r['live']['hashing'], r['live']['chunking'])
+        for v in rep.violations:
+            print('VIOLATION-REPRODUCED', v['what'])
+        for d in rep.disagreements:
+            print('DISAGREEMENT-REPRODUCED', d['what'])
+        return 1 if rep.violations or rep.disagreements else 0
     if 'probe' in r:
         rep = Report(rule=RULE)
         {'vanishing_chunk': vanishing_chunk_probe, 'duplicated_state': duplicated_state_probe, 'size_threshold': size_threshold_probe}[r['probe']](ctx, rep)
